@@ -296,7 +296,9 @@ let () =
       | id :: "crash" :: _ -> Printf.printf "%s crash ok\n" id
       | [id; "tanio"; kind; mlfs; k] when (kind = "tan" || kind = "tanmux")
           && (try int_of_string mlfs >= 0 with _ -> false)
-          && (k = "all" || k = "none" || (try int_of_string k >= 0 with _ -> false)) ->
+          && (k = "all" || k = "none" || k = "fsall" || (try int_of_string k >= 0 with _ -> false)
+              || (String.length k > 2 && String.sub k 0 2 = "fs"
+                  && (try int_of_string (String.sub k 2 (String.length k - 2)) >= 0 with _ -> false))) ->
         Printf.printf "%s tanio ok\n" id
       | id :: kind :: args when String.length kind >= 3 && String.sub kind 0 3 = "tan" -> run_tan id kind args body
       | id :: _ -> Printf.printf "%s badcase\n" id
